@@ -18,7 +18,8 @@ RULE = ("programs = declaration call chains on every type over argument universe
         "A chain is distinct by construction; non-trivial = length >= 2.")
 ASSUMPTIONS = ["arity errors (Python TypeError from calling with the wrong number of arguments) are not 'arguments of any type' and are not generated",
                "NaN is excluded as a float argument (nan != nan: 'conforms to itself' is undefined)"]
-TIERS = {"quick": dict(shards=16, maxlen=2, sample=24000, full4=False),
+REACH_FILES = ['d42/declaration/types/_int_schema.py', 'd42/declaration/types/_float_schema.py', 'd42/declaration/types/_str_schema.py', 'd42/declaration/types/_list_schema.py', 'd42/declaration/types/_dict_schema.py', 'd42/declaration/types/_any_schema.py']
+TIERS = {"quick": dict(shards=16, maxlen=2, sample=64000, full4=False),
          "thorough": dict(shards=16, maxlen=3, sample=400000, full4=True)}
 
 
@@ -233,7 +234,9 @@ def run_shard(ctx):
                 ctx.case = idx
                 ctx.count("evaluations")
                 ctx.count("exhaustive_chains")
-                ctx.distinct([kind, idx], n >= 2)
+                ctx.count("cases_seen")
+                if n >= 2:
+                    ctx.count("distinct_by_construction")  # every enumerated chain is distinct by construction
                 if idx % 5000 == 1:
                     ctx.sample(show_chain(kind, chain))
                 run_chain(ctx, kind, chain)
@@ -248,7 +251,8 @@ def run_shard(ctx):
                 ctx.case = idx
                 ctx.count("evaluations")
                 ctx.count("exhaustive_len4_reduced")
-                ctx.distinct([kind, idx], True)
+                ctx.count("cases_seen")
+                ctx.count("distinct_by_construction")
                 run_chain(ctx, kind, chain)
     # seeded sample of longer chains (valid-biased so that later steps are reached)
     base = 10 ** 9
